@@ -395,6 +395,16 @@ def m5(ctx):
                 ap = strip_role(appl[0].body.role_of_operand(appl[0].args[2])) if appl else strip_role(b.role_of_operand(un[0].args[1]))
             # both derive from the parsed left pattern `a` (the applier gets a clone)
             ok = role_mentions_call(sp, "parse") and role_mentions_call(ap, "parse") and role_str(sp).count("param") == role_str(ap).count("param")
+        # the searcher hands over everything the matcher found: its result is ematch_all(..) itself, not a shortened / filtered list
+        SHRINK = {"truncate", "retain", "retain_mut", "drain", "dedup", "dedup_by", "dedup_by_key", "pop", "remove", "swap_remove", "split_off", "clear", "take", "skip", "filter", "filter_map", "step_by", "take_while", "skip_while"}
+        for sc in srch:
+            sb_ = sc.body
+            shr = sorted({c.callee.name for c in sb_.calls if c.callee and c.callee.name in SHRINK and not sb_.blocks[c.bb]["cleanup"]})
+            ret = strip_role(sb_.role_of_local(0))
+            direct = isinstance(ret, tuple) and ret[0] == "call" and ret[1] in ("ematch_all", "new") or role_mentions_call(ret, "ematch_all")
+            ctx.check(not shr and direct, "searcher-returns-all-matches", "the searcher of a pattern rule returns the matcher's whole result",
+                      "the searcher of a pattern rule shortens the match list (%s) before handing it to the applier: represented instances of the left-hand side never fire, and a run can stop as Saturated while applying the rules to the dropped matches would still change the e-graph" % (", ".join(shr) or role_str(ret)[:60]),
+                      where_of(sb_, sc.bb))
         ctx.check(ok, "searcher-and-applier-share-lhs", "the searcher matches the same left pattern the applier instantiates", "Rewrite::new_if wires different left patterns into searcher and applier", where_of(n))
 
 
